@@ -1,15 +1,10 @@
 ------------------------------ MODULE Names ------------------------------
 (***************************************************************************)
-(* Task names and their resolution (C10).                                  *)
-(*                                                                         *)
-(* A full name is  ns1::ns2::g1:g2:name .  P-level: names are TOKENISED    *)
-(* records [ns, grp, name]; a query is a name form.  I-level: the code's   *)
-(* _find_task_full_name, transcribed on CHARACTER sequences so that        *)
-(* split('::'), split(':') and str.endswith are the code's.                *)
-(* TLC enumerates name sets and queries (as initial states), checks        *)
-(* IFind = PFind on every one and prints each case for the binding.        *)
+(* C10: TLC enumerates name sets and queries (as initial states), checks   *)
+(* IFind = PFind (NameRes) on every one and prints each case for the       *)
+(* binding to the real _find_task_full_name and chain lookups.             *)
 (***************************************************************************)
-EXTENDS Naturals, Sequences, FiniteSets, TLC, Json, SequencesExt
+EXTENDS NameRes, TLC, Json
 
 CONSTANTS NsMenu,    \* namespace paths: sequences of tokens, e.g. <<>>, <<"n">>, <<"xn","n">>
           GrpMenu,   \* group paths
@@ -18,93 +13,6 @@ CONSTANTS NsMenu,    \* namespace paths: sequences of tokens, e.g. <<>>, <<"n">>
           Emit       \* print every case (generation runs)
 
 Universe == {[ns |-> n, grp |-> g, name |-> a] : n \in NsMenu, g \in GrpMenu, a \in NameMenu}
-
-(*************************** P-level (tokens) ******************************)
-\* the query forms of a full name: full, without namespace, without group, without both
-Forms(t) == {[ns |-> n, grp |-> g, name |-> t.name] : n \in {t.ns, <<>>}, g \in {t.grp, <<>>}}
-
-\* q identifies t if it is one of t's forms
-PMatch(q, t) == q \in Forms(t)
-
-\* the flattened token list; a namespace token is tagged so that  n::a  and  n:a  differ
-Toks(t) == [i \in 1..Len(t.ns) |-> <<"ns", t.ns[i]>>] \o [i \in 1..Len(t.grp) |-> <<"g", t.grp[i]>>] \o <<<<"t", t.name>>>>
-
-\* c is a less-nested form of t: t is c with more namespaces / groups in front
-LessNested(c, t) == IsSuffix(Toks(c), Toks(t))
-
-NotFound  == [err |-> "notfound"]
-Ambiguous == [err |-> "ambiguous"]
-\* "Every task can be addressed by its full name": an exact full name always resolves to that task.
-PFind(q, names) ==
-  LET M == {t \in names : PMatch(q, t)} IN
-  IF q \in names THEN q
-  ELSE IF M = {} THEN NotFound
-  ELSE IF Cardinality(M) = 1 THEN CHOOSE t \in M : TRUE
-  ELSE IF \E c \in M : \A t \in M : LessNested(c, t) THEN CHOOSE c \in M : \A t \in M : LessNested(c, t)
-  ELSE Ambiguous
-
-(*************************** I-level (characters) **************************)
-\* characters of a token: tokens are spelled with single-character strings in CharsOf
-CharsOf(tok) ==
-  CASE tok = "a" -> <<"a">> [] tok = "xa" -> <<"x", "a">> [] tok = "n" -> <<"n">> [] tok = "xn" -> <<"x", "n">>
-    [] tok = "g" -> <<"g">> [] tok = "xg" -> <<"x", "g">> [] tok = "h" -> <<"h">> [] tok = "train" -> <<"t", "r">>
-    [] tok = "train_x" -> <<"t", "r", "_", "x">> [] tok = "b" -> <<"b">>
-    [] OTHER -> <<tok>>
-
-RECURSIVE JoinToks(_, _)
-JoinToks(toks, sep) == IF toks = <<>> THEN <<>>
-                       ELSE IF Len(toks) = 1 THEN CharsOf(toks[1])
-                       ELSE CharsOf(toks[1]) \o sep \o JoinToks(Tail(toks), sep)
-
-\* the text of a name as the code sees it
-Text(t) == LET g == JoinToks(Append(t.grp, t.name), <<":">>) IN
-           IF t.ns = <<>> THEN g ELSE JoinToks(t.ns, <<":", ":">>) \o <<":", ":">> \o g
-
-\* str.split('::'): leftmost non-overlapping separators
-RECURSIVE SplitNs(_, _)
-SplitNs(txt, cur) ==
-  IF txt = <<>> THEN <<cur>>
-  ELSE IF Len(txt) >= 2 /\ txt[1] = ":" /\ txt[2] = ":" THEN <<cur>> \o SplitNs(SubSeq(txt, 3, Len(txt)), <<>>)
-  ELSE SplitNs(Tail(txt), Append(cur, txt[1]))
-RECURSIVE SplitGrp(_, _)
-SplitGrp(txt, cur) ==
-  IF txt = <<>> THEN <<cur>>
-  ELSE IF txt[1] = ":" THEN <<cur>> \o SplitGrp(Tail(txt), <<>>)
-  ELSE SplitGrp(Tail(txt), Append(cur, txt[1]))
-RECURSIVE JoinNs(_)
-JoinNs(parts) == IF parts = <<>> THEN <<>> ELSE IF Len(parts) = 1 THEN parts[1]
-                 ELSE parts[1] \o <<":", ":">> \o JoinNs(Tail(parts))
-HasColon(txt) == \E i \in 1..Len(txt) : txt[i] = ":"
-
-\* _task_name_match(name, fullname) with determine_namespace
-IMatch(name, fullname, determineNs) ==
-  LET np == SplitNs(name, <<>>)
-      fp == SplitNs(fullname, <<>>)
-      namespace == JoinNs(SubSeq(np, 1, Len(np) - 1))
-      fullnamespace == JoinNs(SubSeq(fp, 1, Len(fp) - 1))
-      n == np[Len(np)]
-      f == fp[Len(fp)]
-  IN IF (namespace # <<>> \/ ~determineNs) /\ fullnamespace # namespace THEN FALSE
-     ELSE IF f = n THEN TRUE
-     ELSE IF HasColon(f) /\ ~HasColon(n) THEN LET gp == SplitGrp(f, <<>>) IN gp[Len(gp)] = n
-     ELSE FALSE
-
-\* the priority rule: "if any task name is suffix of all others, it has priority".
-\* Transcribed as repaired by the fix: commit (a match at a token boundary):  t == cand or t.endswith(':' + cand).
-\* IEndsWithTextual is the rule of the pinned 1.4.0 code (plain str.endswith), kept to exhibit the defect.
-IEndsWithTextual(t, cand) == IsSuffix(cand, t)
-IEndsWith(t, cand) == t = cand \/ IsSuffix(<<":">> \o cand, t)
-
-IFindWith(EW(_, _), exactFirst, q, names) ==
-  LET M == {t \in names : IMatch(Text(q), Text(t), TRUE)} IN
-  IF M = {} THEN NotFound
-  ELSE IF exactFirst /\ \E t \in M : Text(t) = Text(q) THEN CHOOSE t \in M : Text(t) = Text(q)
-  ELSE IF Cardinality(M) = 1 THEN CHOOSE t \in M : TRUE
-  ELSE IF \E c \in M : \A t \in M : EW(Text(t), Text(c)) THEN CHOOSE c \in M : \A t \in M : EW(Text(t), Text(c))
-  ELSE Ambiguous
-\* as repaired (exact full name first, then token-boundary suffix priority) / as in the pinned 1.4.0 code
-IFind(q, names)        == IFindWith(IEndsWith, TRUE, q, names)
-IFindTextual(q, names) == IFindWith(IEndsWithTextual, FALSE, q, names)
 
 (*************************** enumeration ***********************************)
 VARIABLES names, query
